@@ -83,6 +83,8 @@ FIXED = [
       "C15|split_run_differs|driver=GrandCanonical|split=zero_first|what=observer_calls"]),
     ("C20", "f54fa68", "no driver ever delivered on_cell_changed",
      ["C20|cell_change_not_notified|driver=Isobaric", "C20|cell_change_not_notified|driver=Isotension"]),
+    ("C07", "448f550", "Isobaric/Isotension built with default_displacement_move= on an empty box (N = 0) raised ZeroDivisionError in set_default_probability (1/(1+1/N)): the simulation and its restart file could not be created",
+     ["C07|cannot_build_with_restart_file|driver=Isobaric|type=ZeroDivisionError", "C07|cannot_build_with_restart_file|driver=Isotension|type=ZeroDivisionError"]),
     ("C07", "1d8072d", "restart file written through MonteCarlo.to_dict (alias bound at class creation): subclass settings missing, Isobaric/Isotension.from_dict TypeError; ForceBias could not be written", []),
     ("C03", "1dd570a", "per-atom arrays carried only by the exchange template (initial_charges, tags, ...) stayed on the atoms after a vetoed or rejected insertion (and made ASE calculators recompute)",
      ["C03|state_changed_by_nonaccepted_trial|component=arrays:initial_charges:appeared|driver=GrandCanonical|move=exch|verdict=False|constraints=none",
